@@ -1,7 +1,8 @@
 """Unit-level differential of the AdvancedNode tree API (append_child, remove_child, replace_child, move_to,
-copy) on real node objects.  stdin: JSON lines {"id", "cells": [[id, cls, par, [kids]], ...], "ops": [[...], ...]}
+copy) on real node objects, and of TreeCleaner.fix_reference_nodes (op "f") on real trees.  stdin: JSON lines {"id", "cells": [[id, cls, par, [kids]], ...], "ops": [[...], ...]}
 stdout: JSON lines {"id", "done": k, "status": "OK"|"ERR", "exc": ..., "cells": [[id, cls, par, [kids]], ...]}
-ids are 1..n; objects created by copy() are numbered n+1.. in preorder of the copy."""
+ids are 1..n; objects created by copy() are numbered n+1.. in preorder of the copy.  Optional keys of a case: "vlist" {id: attrs}
+(node attributes, e.g. a Reference's name / group), "text" (caption of every Text node, default "x")."""
 import json
 import logging
 import sys
@@ -11,17 +12,21 @@ warnings.simplefilter("ignore")
 logging.disable(logging.CRITICAL)
 
 from mwlib.parser import advtree  # noqa: E402
-from mwlib.parser.advtree import (Cell, Div, Item, ItemList, Paragraph, Row, Section, Table, Text, Center, Span)  # noqa: E402
+from mwlib.parser.advtree import (Cell, Div, Item, ItemList, Paragraph, Row, Section, Table, Text, Center, Span, Reference)  # noqa: E402
+from mwlib.parser.treecleaner import TreeCleaner  # noqa: E402
 
-MK = {1: lambda: Text("x"), 2: Table, 3: Row, 4: Cell, 6: ItemList, 7: Item, 8: Section, 10: Paragraph, 24: Div, 25: Span, 26: Center}
-CODE = {"Text": 1, "Table": 2, "Row": 3, "Cell": 4, "ItemList": 6, "Item": 7, "Section": 8, "Paragraph": 10, "Div": 24, "Span": 25,
-        "Center": 26}
+MK = {1: lambda: Text("x"), 2: Table, 3: Row, 4: Cell, 6: ItemList, 7: Item, 8: Section, 9: Reference, 10: Paragraph, 24: Div, 25: Span,
+      26: Center}
+CODE = {"Text": 1, "Table": 2, "Row": 3, "Cell": 4, "ItemList": 6, "Item": 7, "Section": 8, "Reference": 9, "Paragraph": 10, "Div": 24,
+        "Span": 25, "Center": 26}
 
 
 def run(case):
     objs = {}
     for i, c, _p, _ks in case["cells"]:
-        objs[i] = MK[c]()
+        objs[i] = MK[c]() if c != 1 else Text(case.get("text", "x"))
+    for i, attrs in (case.get("vlist") or {}).items():
+        objs[int(i)].vlist = dict(attrs)
     for i, _c, p, ks in case["cells"]:
         objs[i].children = [objs[k] for k in ks]
         objs[i].parent = objs[p] if p else None
@@ -40,6 +45,8 @@ def run(case):
                 objs[op[1]].replace_child(objs[op[2]], [objs[j] for j in op[3]])
             elif k == "m":
                 objs[op[1]].move_to(objs[op[2]], prefix=bool(op[3]))
+            elif k == "f":        # the real pass, on the tree below objs[op[1]]
+                TreeCleaner(objs[op[1]], save_reports=False).fix_reference_nodes(objs[op[1]])
             elif k == "c":
                 new = objs[op[1]].copy()
                 stack = [new]
